@@ -35,7 +35,7 @@ EXPLANATION = ('C08: the real circusd.main() on a generated configuration (1-2 w
                'exclusive operation; and the pid-file protocol over structured file contents. ')
 
 TRIGGERS = ('quit', 'quit_waiting', int(signal.SIGTERM), int(signal.SIGINT), int(signal.SIGQUIT))
-PRE = ('none', 'incr', 'restart', 'reload', 'kill', 'late_socket', 'on_demand', 'on_demand_death')
+PRE = ('none', 'incr', 'restart', 'reload', 'kill', 'late_socket', 'on_demand', 'on_demand_death', 'changed_watcher')
 
 
 def _config(tmp, stubborn, two, warm, nosock=False, ondemand=False):
@@ -127,6 +127,13 @@ def c08_shutdown(ti: int, pi: int, d: int, late: int, rep: int) -> bool:
                     # first connection on the managed socket: the next periodic check starts the on_demand watcher IN THE BACKGROUND
                     # (two workers 1 s apart: the watcher is 'starting' for two seconds)
                     w.select_result = [w.arbiter.sockets['web'].fileno()]
+                elif pre == 'changed_watcher':
+                    # the definition of one watcher is edited and reloadconfig replaces it by a new object (same name, same count)
+                    with open(cfgpath) as f_:
+                        text_ = f_.read()
+                    with open(cfgpath, 'w') as f_:
+                        f_.write(text_.replace('cmd = bgprog', 'cmd = bgprog --v2'))
+                    state['pre_req'] = w.send('reloadconfig', waiting=True)
                 elif pre == 'late_socket':
                     # a managed socket is added to a daemon that started without any, by reloadconfig
                     with open(cfgpath, 'a') as f_:
@@ -150,7 +157,7 @@ def c08_shutdown(ti: int, pi: int, d: int, late: int, rep: int) -> bool:
 
             def by_time():
                 pre_request()
-                if pre == 'late_socket':
+                if pre in ('late_socket', 'changed_watcher'):
                     w.vloop.call_later(1.0 + 0.1 * late, fire)       # after the reloadconfig has completed
                 elif pre == 'on_demand':
                     w.vloop.call_later(0.75 + 0.4 * late, fire)      # check_delay 1 s: the start begins at the next whole second
